@@ -391,3 +391,16 @@ sub('special/gamma.go','''    result = gam - result
 ''')
 # Temme: phi written through the ratio
 sub('special/gamma.go','''  phi   := sigma - math.Log1p(sigma)''','''  phi   := sigma - math.Log(x/a)''')
+# BFGS update: the transposed factor held in a local; parameters renamed
+sub('algorithm/bfgs/bfgs.go','''  H2.MdotM(t6, t5.T())''','''  right := t5.T()
+  H2.MdotM(t6, right)''')
+rename_in_func('algorithm/bfgs/bfgs.go', r'func bfgs_updateH\(', 'p2', 'step')
+# line search interpolation with the model coefficients named differently
+rename_in_func('algorithm/lineSearch/lineSearch.go', r'func quadraticMin\(', 'db', 'width')
+# Householder vector: the sign test written from the other side
+sub('algorithm/householder/householder.go','''    if x.At(0).GetFloat64() < 0.0 {''','''    if 0.0 > x.At(0).GetFloat64() {''')
+# digamma: the upward shift written with a temporary
+sub('special/digamma.go','''      result -= 1.0/x
+      x      += 1.0''','''      inv := 1.0/x
+      result -= inv
+      x      += 1.0''')
